@@ -65,8 +65,10 @@ def _enforce_site(ctx, cls, fn, cid, guarded_by):
 def r07b(ctx):
     model = ctx.model
     mod, fn = model.func("_collection", "new_collection")
-    t = ast.unparse(fn)
-    good = "get_collection_type(meta)(expr)" in t and "meta = expr._meta" in t
+    defs = flow.Defs(fn)
+    param = fn.args.args[0].arg
+    rets = [ast.unparse(defs.expand(r.value, at=r)).replace(" ", "") for r in ast.walk(fn) if isinstance(r, ast.Return) and r.value is not None]
+    good = bool(rets) and all(r == f"get_collection_type({param}._meta)({param})" for r in rets)
     (ctx.ok if good else ctx.bad)("_collection.new_collection", mod.loc(fn), "get_collection_type(expr._meta)(expr)" if good else "new_collection no longer dispatches the collection class on expr._meta")
     bmod = model.modules.get("dask_expr._backends")
     if bmod is None:
